@@ -117,20 +117,30 @@ func (cw *CobsWrapper) Read(b []byte) (int, error) {
 				foundStart = true
 			}
 			if lb[i] == 0 {
-				// found end of packet, copy to read buffer and process
-				_, _ = cw.readLeftover.Read(b[0:i])
-				return cobsDecodeInplace(b[0:i])
+				// found end of packet, copy to read buffer (including the
+				// terminator) and process
+				c, _ := cw.readLeftover.Read(b[0 : i+1])
+				return cobsDecodeInplace(b[0:c])
 			}
 		}
 
-		// write leftover bytes to beginning of buffer
-		bBuf := bytes.NewBuffer(b)
-		c, _ := bBuf.Write(cw.readLeftover.Bytes())
+		// move leftover bytes to beginning of buffer, they are the start
+		// of the next packet
+		c, _ := cw.readLeftover.Read(b)
+		cw.readLeftover.Reset()
 
 		cur += c
 	}
 
 	foundStart := false
+
+	// a packet may already be open in the bytes carried over
+	for i := 0; i < cur; i++ {
+		if b[i] != 0 {
+			foundStart = true
+			break
+		}
+	}
 
 	for {
 		c, err := cw.dev.Read(b[cur:])
